@@ -46,7 +46,7 @@ func ptr(v int64) *int64 { return &v }
 
 var poisonBad = []string{"noncrit", "int", "empty", "octet", "trail", "noncrit-int"}
 
-var perturbOps = []string{"drop", "drop", "cut", "swap", "swap", "dup", "insert", "insert", "approot", "approot", "flip", "flip", "resign", "trunc", "sibling", "sibling", "sibling", "twin", "twin", "oldself", "oldself", "oldself", "merge", "shift", "emptyentry", "trail", "leafroot"}
+var perturbOps = []string{"drop", "drop", "cut", "swap", "swap", "dup", "insert", "insert", "approot", "approot", "flip", "flip", "resign", "trunc", "sibling", "sibling", "sibling", "twin", "twin", "oldself", "oldself", "oldself", "merge", "shift", "emptyentry", "trail", "dropinter", "swapinters", "leafalone", "leafroot"}
 
 func genCase(t *rapid.T, http bool) Case {
 	var c Case
@@ -149,6 +149,9 @@ func genCase(t *rapid.T, http bool) Case {
 	l.Node = pct(t, "lnode", 12)
 	l.Kind = pickFrom(t, "lkind", leafKinds)
 	l.CA = pct(t, "lca", 10)
+	if pct(t, "lkumode", 30) {
+		l.KUMode = 1 + uni(t, "lkumodev", 0, 4)
+	}
 	switch r := uni(t, "lpoison", 0, 99); {
 	case r >= 65:
 		l.Poison = "ok"
@@ -215,14 +218,26 @@ func genCase(t *rapid.T, http bool) Case {
 	case r < 85:
 		o.Limit = ptr(pickFrom(t, "limit", limitOffs))
 	default:
-		ws, wl := pickFrom(t, "start", startOffs), pickFrom(t, "limit", limitOffs)
+		o.Start, o.Limit = ptr(pickFrom(t, "start", startOffs)), ptr(pickFrom(t, "limit", limitOffs))
+	}
+	// bounds with sub-second parts (the configuration takes Timestamps with nanos)
+	subs := []int64{5e8, -5e8, 1, -1, 999999999, -999999999}
+	if o.Start != nil && pct(t, "startns", 35) {
+		o.StartNs = pickFrom(t, "startnsv", subs)
+	}
+	if o.Limit != nil && pct(t, "limitns", 35) {
+		o.LimitNs = pickFrom(t, "limitnsv", subs)
+	}
+	if o.Start != nil && o.Limit != nil {
+		ws, wl := *o.Start*1e9+o.StartNs, *o.Limit*1e9+o.LimitNs
 		if ws == wl { // start == limit is outside the domain
-			wl = ws + 1
+			*o.Limit++
+			wl += 1e9
 		}
 		if http && wl < ws { // the configuration validator refuses limit < start
-			ws, wl = wl, ws
+			o.Start, o.Limit = o.Limit, o.Start
+			o.StartNs, o.LimitNs = o.LimitNs, o.StartNs
 		}
-		o.Start, o.Limit = ptr(ws), ptr(wl)
 	}
 	switch r := uni(t, "expiry", 0, 99); {
 	case r < 68:
@@ -291,6 +306,31 @@ func genCase(t *rapid.T, http bool) Case {
 			wantPre = !wantPre
 		}
 		c.PreChain = wantPre
+		// histories on one instance: admission must not depend on what was submitted before
+		advs := []int{0, 0, 1, 60, 119, 120, 121, 600}
+		hp := func(ops []string) Perturb {
+			return Perturb{Op: pickFrom(t, "hop", ops), I: uni(t, "hpi", 0, 6), J: uni(t, "hpj", 0, 70), K: uni(t, "hpk", 0, 40)}
+		}
+		switch r := uni(t, "history", 0, 99); {
+		case r < 70:
+		case r < 85: // a few arbitrary earlier submissions (valid ones included)
+			for i, n := 0, uni(t, "hlen", 1, 3); i < n; i++ {
+				var h HistStep
+				if pct(t, "hperturbed", 60) {
+					h.Perturbs = []Perturb{hp(perturbOps)}
+				}
+				h.AdvanceSec = pickFrom(t, "hadv", advs)
+				c.History = append(c.History, h)
+			}
+		default: // the same leaf keeps arriving with a broken path, then (often) with the right one
+			for i, n := 0, uni(t, "hlen", 3, 5); i < n; i++ {
+				c.History = append(c.History, HistStep{Perturbs: []Perturb{hp([]string{"dropinter", "swapinters", "leafalone", "dropinter", "cut", "insert"})}, AdvanceSec: pickFrom(t, "hadv", advs)})
+			}
+			if pct(t, "hthenvalid", 70) {
+				c.Perturbs = nil
+			}
+		}
+		c.AdvanceSec = pickFrom(t, "adv", advs)
 	}
 	return c
 }
